@@ -234,7 +234,13 @@ func runC27(c *Ctx) {
 		})
 		noCV := k.extra
 		if strings.Contains(k.fn, "readClientCertificate") {
-			noCV = AnyF(noCV, IsFalse(ResultOf(-1, "(*z/tls.serverHandshakeStateTLS13).requestClientCert")))
+			// no client certificate was requested: requestClientCert() is false, or (the same test written
+			// out) ClientAuth < RequestClientCert or a PSK is in use
+			noCV = AnyF(noCV, IsFalse(ResultOf(-1, "(*z/tls.serverHandshakeStateTLS13).requestClientCert")),
+				IsTrue(func(v ssa.Value) bool { return strings.HasSuffix(Expr(v), "hs.usingPSK") }),
+				func(f Fact) bool {
+					return f.Op == "lt" && f.Y != nil && strings.HasSuffix(Expr(f.X), ".config.ClientAuth") && w.IsConstNamed("z/tls", "RequestClientCert")(f.Y)
+				})
 		}
 		c.Cut(CutSpec{Fn: fn, Label: k.label + ": nil only past verifyHandshakeSignature == nil under the peer's leaf key (unless no certificate is in play)", Target: SuccessReturn(0, nil), Cut: AnyF(sigOK, noCV)})
 	}
